@@ -85,6 +85,12 @@ class Prop:
             for cap in range(3, n + 4):
                 for rs in gen.chunkings(n):
                     out.append(' '.join([t[0], str(cap), t[2], gen.lst(rs)] + t[4:]))
+        if any(f not in ('fa', 'fq') for f in self.fmts):
+            # writer / policy / allocation cases have their own generators: widen with a slice of the thorough tier
+            if rnd > 2:
+                return out
+            more = self.cases('thorough', rng)
+            return out + more[(rnd - 1) * 30000: rnd * 30000]
         for f in self.fmts:
             out += gen.structured(f, rng, 3000)
         if rnd == 1:
@@ -157,6 +163,58 @@ def mix_owned(rng, ops):
 
 # ---------------------------------------------------------------------------
 
+def big_file(fmt, rng, crlf=False):
+    """a WELL-FORMED file of 300-450 KB -- several times the default buffer size (64 KiB) -- with records of very different
+    sizes, among them two that do not fit into 64 KiB; returned with the lines the specification gives for it (the
+    extracted model computes with unary numbers and cannot be run at this size, so the expectation is computed here,
+    from the generator's own record list).  Aims at offsets, line counts and sizes beyond 16 bits and at anything tied to
+    BUFSIZE."""
+    eol = b'\r\n' if crlf else b'\n'
+    text = bytearray()
+    spec = []
+    line = 1
+    i = 0
+    giants = {rng.range(3, 10): 70000 + rng.below(3000), rng.range(20, 40): 140000 + rng.below(3000)}
+    while len(text) < 300000 or i <= max(giants):
+        size = giants.get(i) or rng.choice([0, 1, 7, 60, 61, 300, 1000, 2500])
+        head = b'r%d len=%d' % (i, size) if rng.chance(3, 4) else b'r%d' % i
+        pos = '%d:%d' % (line, len(text))
+        if fmt == 'fa':
+            w = rng.choice([60, 61, 70, 1000, 100000])
+            sq = rnd_seq(rng, size).replace(b'*', b'A')
+            lines = [sq[j:j + w] for j in range(0, len(sq), w)]
+            if rng.chance(1, 10):
+                lines.append(b'')
+            text += b'>' + head + eol + b''.join(l + eol for l in lines)
+            spec.append('rec h=%s l=%s @%s' % (head.hex(), ''.join('/' + l.hex() for l in lines), pos))
+            line += 1 + len(lines)
+        else:
+            sq = rnd_seq(rng, size).replace(b'*', b'A')
+            q = bytes(33 + (b % 40) for b in sq)
+            text += b'@' + head + eol + sq + eol + b'+' + eol + q + eol
+            spec.append('rec h=%s s=%s q=%s @%s' % (head.hex(), sq.hex(), q.hex(), pos))
+            line += 4
+        i += 1
+    return bytes(text), spec
+
+
+def run_big(prop, tag, stats, built, level='full', check_pos=True, extra_oracle=None):
+    """built: list of (case, spec lines); implementation only, judged by the cursor oracle over the given spec lines"""
+    F = []
+    by_case = dict(built)
+    for r in vlib.run_cases([c for c, _ in built], prop.id + '_' + tag, model=False):
+        stats['evaluations'] += 1
+        stats['distinct_nontrivial'] += 1
+        r['spec'] = by_case[r['case']]
+        bad = abnormal(r) + oracles.cursor_check(fmt_of(r['case']), r, level=level, check_pos=check_pos)
+        if extra_oracle:
+            bad += extra_oracle(r)
+        if bad:
+            r['noshrink'] = True
+            F.append((r, bad[:6]))
+    return F
+
+
 class C01(Prop):
     id = 'C01'
     fmts = ('fa',)
@@ -177,6 +235,17 @@ class C01(Prop):
 
     def oracle(self, res):
         return abnormal(res) + oracles.cursor_check(self.fmts[0], res, level='kind', check_pos=False)
+
+    def extra(self, tier, rng, stats):
+        """files several times the default buffer size (big_file): record by record at the default capacity, at a small
+        and at an odd one; LF and CR LF"""
+        f = self.fmts[0]
+        built = []
+        for crlf, cap in ([(False, 65536), (True, 1000)] if tier == 'quick' else
+                          [(False, 65536), (True, 65536), (False, 1000), (True, 70001), (False, 3)]):
+            text, spec = big_file(f, rng, crlf)
+            built.append((gen.mkcase(f, cap, text, None, None, 'std', mix_owned(rng, ['N'] * (len(spec) + 2))), spec))
+        return run_big(self, 'big', stats, built, level='kind', check_pos=False), {'big_file_cases': len(built)}
 
     def rule(self, tier):
         return ('all byte strings up to length %d over the 5-letter format alphabet x capacities 3..len+2 x chunkings '
@@ -247,6 +316,47 @@ class C03(Prop):
 
     def oracle(self, res):
         return abnormal(res)
+
+    def extra(self, tier, rng, stats):
+        """"every growth policy that permits the needed size", with a LIMITED policy: the sizes a doubling policy passes
+        through on an input (capacity, 2 x capacity, ... up to the first size M that holds the longest record) are taken
+        from the MODEL's run with an unlimited doubling policy; the policy DoubleUntilLimited(double_until = 100000,
+        limit = M) permits exactly that chain, so reading with it must give the very outcomes of the Spec stream --
+        no buffer-limit error, whatever the chunking."""
+        if not os.path.exists(os.path.join(vlib.OCAML, 'model_driver')):
+            return [], {}
+        import re as _re
+        first = []
+        for f in self.fmts:
+            for _ in range(250 if tier == 'quick' else 4000):
+                cap = rng.choice([3, 4, 5, 6, 7, 9, 11])
+                t = gen.fasta_file(rng, rng.choice([8, 13, 21])) if f == 'fa' else gen.fastq_file(rng, rng.choice([8, 13, 21]))
+                ops = [rng.choice(['N', 'N', 'N', 'S0', 'O']) for _ in range(gen.n_items_bound(f, t))] + ['N']
+                first.append((f, cap, t, ops))
+        probe = vlib.run_cases([gen.mkcase(f, cap, t, None, None, 'du.100000', ops) for f, cap, t, ops in first],
+                               self.id + '_chain', model=True, impl=False)
+        cases = []
+        for (f, cap, t, ops), r in zip(first, probe):
+            sizes = [int(x) for l in r['model'] for x in _re.findall(r'g\d+:(\d+)', l)]
+            if not sizes:
+                continue                        # nothing had to grow: covered by the refusing configurations of cases()
+            cases.append(gen.mkcase(f, cap, t, gen.rnd_chunking(rng, len(t)), None, 'dul.100000.%d' % max(sizes), ops))
+        F = []
+        for r in vlib.run_cases(cases, self.id + '_limited', model=True):
+            stats['evaluations'] += 1
+            stats['distinct_nontrivial'] += 1
+            f = fmt_of(r['case'])
+            bad = abnormal(r) + oracles.cursor_check(f, r, level='full', check_pos=True)
+            for i, l in enumerate(r['impl']):
+                if ' err buflimit' in l or l.startswith('err buflimit'):
+                    bad.append('op#%d buffer-limit error although the policy permits every size of the doubling chain '
+                               'up to the one that holds the longest record' % i)
+            if r['model'] and [ev_proj(parse_line(x)) for x in r['model']] != [ev_proj(parse_line(x)) for x in r['impl']]:
+                bad.append('model and implementation disagree under the limited policy')
+            if bad:
+                r['noshrink'] = True
+                F.append((r, bad))
+        return F, {'limited_policy_cases': len(cases)}
 
     def cross(self, results):
         """pairwise: same input and operations => same observable outcome, whatever the configuration"""
@@ -336,6 +446,17 @@ class C04(Prop):
         for f in self.fmts:
             out += gen.structured(f, rng, n, malformed_share=6,
                                   ops_fn=lambda r, t: gen.rnd_history(r, t, f))
+            # tight policies: the buffer may not grow (at all / beyond a few bytes), so exact-count reads meet the refusal
+            # with records already collected; a call may then return the buffer-limit error (after which the cursor is
+            # no longer tracked), but whatever IS delivered before must still be the next records, once, in order
+            for _ in range(n // 3):
+                cap = rng.choice([8, 12, 16, 24, 32, 48, 64])
+                text = gen.fasta_file(rng, rng.choice([3, 4, 6])) if f == 'fa' else gen.fastq_file(rng, rng.choice([3, 4, 6]))
+                pol = rng.choice(['ref', 'dul.2.%d' % (cap + rng.below(6)), 'plus.1.%d' % (cap + rng.below(4)), 'scr.n.n',
+                                  'dul.%d.%d' % (cap, cap)])
+                k = gen.n_items_bound(f, text)
+                ops = [rng.choice(['E0.2', 'E0.3', 'E1.2', 'E0.4', 'N', 'S0', 'I0']) for _ in range(k + 2)]
+                out.append(gen.mkcase(f, cap, text, gen.rnd_chunking(rng, len(text)), None, pol, ops))
             # fixed switch patterns on the exhaustive small scope
             pats = [['S0', 'N', 'S0', 'N', 'N'], ['N', 'S0', 'S1', 'I0', 'N'], ['E0.1', 'N', 'E0.2', 'I0', 'E1.3', 'N'],
                     ['E0.2', 'E0.2', 'E0.2', 'N'], ['O', 'E0.3', 'O', 'S0', 'N']]
@@ -347,6 +468,21 @@ class C04(Prop):
     def oracle(self, res):
         f = fmt_of(res['case'])
         return abnormal(res) + oracles.cursor_check(f, res, level='kind', check_pos=False) + set_discipline(res) + iter_contract(res)
+
+    def extra(self, tier, rng, stats):
+        """mixed histories over files several times the default buffer size (big_file): record sets with hundreds of
+        records, exact-count batches that make the buffer grow past 64 KiB, single reads in between"""
+        built = []
+        for f in self.fmts:
+            for crlf, cap in ([(False, 65536), (True, 5000)] if tier == 'quick' else
+                              [(False, 65536), (True, 65536), (False, 5000), (True, 300)]):
+                text, spec = big_file(f, rng, crlf)
+                ops = []
+                for _ in range(len(spec) + 4):
+                    ops.append(rng.choice(['S0', 'S1', 'N', 'O', 'E0.2', 'E1.50', 'E0.400', 'I0', 'N']))
+                built.append((gen.mkcase(f, cap, text, None, None, 'std', ops + ['S0', 'N']), spec))
+        ex = lambda r: set_discipline(r) + iter_contract(r)
+        return run_big(self, 'big', stats, built, level='kind', check_pos=False, extra_oracle=ex), {'big_file_cases': len(built)}
 
     def rule(self, tier):
         return ('structured random files x random histories (<= 12 ops over next, records(), read_record_set, '
@@ -418,6 +554,22 @@ class C05(Prop):
     def oracle(self, res):
         f = fmt_of(res['case'])
         return abnormal(res) + oracles.cursor_check(f, res, level='kind', check_pos=True)
+
+    def extra(self, tier, rng, stats):
+        """positions and seeks in files several times the default buffer size (big_file): byte offsets beyond 64 KiB and
+        beyond the buffer, line numbers in the thousands; every record's position is checked, then the reader goes back and
+        forth to saved positions (real seeks of the source at these distances)"""
+        built = []
+        for f in self.fmts:
+            for crlf, cap in ([(False, 65536), (True, 4096)] if tier == 'quick' else
+                              [(False, 65536), (True, 65536), (False, 4096), (True, 100)]):
+                text, spec = big_file(f, rng, crlf)
+                k = len(spec)
+                ops = ['N', 'P'] * k + ['N']
+                for _ in range(6):
+                    ops += ['J%d' % rng.below(k), rng.choice(['N', 'S0', 'E0.3']), 'P', 'N', 'P']
+                built.append((gen.mkcase(f, cap, text, None, None, 'std', ops), spec))
+        return run_big(self, 'big', stats, built, level='kind', check_pos=True), {'big_file_cases': len(built)}
 
     def rule(self, tier):
         return ('structured random files: read with next / set / exact-set, position saved after every call, then 1-3 seeks '
@@ -817,7 +969,45 @@ class C10(Prop):
             if bad:
                 r['noshrink'] = True       # the shrinker would judge candidates with the writer-case oracle
                 F.append((r, bad))
-        return F, {'record_method_cases': len(cases)}
+        # sizes around the powers of two at which a fixed-size scratch buffer or block-wise writing would show:
+        # headers of 2^k - 1, 2^k, 2^k + 1 bytes; sequences just below / above 64 KiB (the library's BUFSIZE) with the
+        # usual widths.  Implementation only above 20 000 bytes (the extracted model runs out of stack there), judged
+        # against the closed form of the documented output.
+        big = []
+        for k in (6, 7, 8, 9, 10, 12, 13, 16):
+            for d in (-2, -1, 0, 1):
+                hl = (1 << k) + d
+                head = (b'id%d ' % hl + b'x' * hl)[:hl]
+                big.append('wr %s %s %s %d %s' % (gen.hx(head), gen.hx(b'ACGTTGCA'), gen.hx(b'IIIIIIII'), rng.choice([3, 8, 60]), '3,0,2'))
+        lens = [4095, 4096, 4097, 8193, 65535, 65536, 65537, 65596] + ([131073, 196609, 262145] if tier != 'quick' else [131073])
+        for L in lens:
+            seq = rnd_seq(rng, L)
+            for w in ([60, 64, 70000] if tier == 'quick' else [1, 7, 60, 64, 70, 80, 100, 1000, 4096, 65535, 65536, 65537, 70000]):
+                big.append('wr %s %s %s %d %s' % (gen.hx(b'big %d' % L), gen.hx(seq), gen.hx(seq), w,
+                                                  gen.lst([str(c) for c in (0, L // 3, 1, 65536)])))
+        small = [c for c in big if len(c) < 45000]
+        rs = vlib.run_cases(small, self.id + '_big_m', model=True) + \
+            vlib.run_cases([c for c in big if len(c) >= 45000], self.id + '_big', model=False)
+        for r in rs:
+            stats['evaluations'] += 1
+            t = r['case'].split(' ')
+            head, seq, w = bytes.fromhex(t[1]), bytes.fromhex(t[2]), int(t[4])
+            if not r['impl'] or not r['impl'][0].startswith('wr to='):
+                F.append((r, ['writer case did not produce output: %s' % (r['impl'][:1],)]))
+                continue
+            stats['distinct_nontrivial'] += 1
+            f = wr_fields(r['impl'][0])
+            wrapped = b''.join(seq[i:i + w] + b'\n' for i in range(0, len(seq), w))
+            want = {'to': b'>' + head + b'\n' + seq + b'\n', 'wr': b'>' + head + b'\n' + wrapped, 'ws': wrapped, 'wi': wrapped,
+                    'si': seq + b'\n', 'oww': b'>' + head + b'\n' + wrapped}
+            want['ow'] = want['hs'] = want['pa'] = want['to']
+            bad = ['%s: the bytes written differ from the documented form (header line, sequence in lines of the given width)' % k
+                   for k in sorted(want) if f.get(k) != want[k]]
+            if r['model'] and r['model'] != r['impl']:
+                bad.append('model and implementation disagree on a writer case')
+            if bad:
+                F.append((r, bad))
+        return F, {'record_method_cases': len(cases), 'size_threshold_cases': len(big)}
 
     @staticmethod
     def wproj(line):
@@ -1566,6 +1756,19 @@ class C06(Prop):
                     rd = lambda: rng.choice(['N', 'N', 'N', 'O', 'S0', 'E1.2'])
                     ops = [rd() for _ in range(j)] + ['Y' + rng.choice(['std', 'du.7', 'plus.5.100000'])] + [rd() for _ in range(k + 2)]
                 out.append(gen.mkcase(f, cap, text, rs, ss, pol, ops))
+            for _ in range(n // 6):
+                # revisiting: the file (FASTA: behind a blank prefix of 0 .. capacity + 3 LF or CR LF lines) is read to the
+                # end, the position reported for every record is kept, and the reader goes back to each of them --
+                # what it shows there must again be records of the input
+                cap = rng.choice([3, 4, 5, 6, 8, 9, 12, 16])
+                text = gen.fasta_file(rng, cap) if f == 'fa' else gen.fastq_file(rng, cap)
+                if f == 'fa':
+                    text = rng.choice([b'\n', b'\r\n']) * rng.below(cap + 4) + text
+                k = gen.n_items_bound(f, text)
+                ops = ['N', 'P'] * k + ['N']
+                for j in sorted(set(rng.below(k) for _ in range(3)), reverse=True) if k else []:
+                    ops += ['J%d' % j, rng.choice(['N', 'S0', 'E1.2', 'O']), 'N']
+                out.append(gen.mkcase(f, cap, text, gen.rnd_chunking(rng, len(text)), None, 'std', ops))
             out += gen.exhaustive(f, 4 if tier == 'quick' else 6,
                                   ops_fn=lambda s: ['S0', 'N', 'I0', 'E1.2', 'N', 'I1', 'O', 'S0', 'I0'], chunks=[[]])
         return out
@@ -1640,12 +1843,20 @@ class C18(Prop):
             crlf = rng.chance(1, 4)
             t = b'\r\n' if crlf else b'\n'
 
-            def rec(i, shrink=0):
+            # mixed line ends (single reads only): the warm-up records end every line with CR LF (the largest form),
+            # later records choose LF or CR LF per line, so that sequence and quality lines of one record differ in
+            # their terminators; sometimes the very last line has no terminator at all
+            mix = mode == 'next' and rng.chance(1, 3)
+            if mix:
+                crlf, t = True, b'\r\n'
+
+            def rec(i, shrink=0, late=False):
                 h = b'id%d d' % (i % 10)
                 mm = max(0, m - shrink)
+                tt = (lambda: rng.choice([b'\n', b'\r\n'])) if (mix and late) else (lambda: t)
                 if f == 'fa':
-                    return b'>' + h + t + b''.join(rnd_seq(rng, mm).replace(b'*', b'A') + t for _ in range(max(1, nl - (shrink % 2))))
-                return b'@' + h + t + rnd_seq(rng, mm) + t + b'+' + t + rnd_seq(rng, mm).replace(b'-', b'I') + t
+                    return b'>' + h + tt() + b''.join(rnd_seq(rng, mm).replace(b'*', b'A') + tt() for _ in range(max(1, nl - (shrink % 2))))
+                return b'@' + h + tt() + rnd_seq(rng, mm) + tt() + b'+' + tt() + rnd_seq(rng, mm).replace(b'-', b'I') + tt()
             R = rng.choice([40, 80, 200])
             # the first records are the largest ("further records that are no larger")
             if mode == 'set':
@@ -1653,8 +1864,10 @@ class C18(Prop):
                 # so all records have the same size (DESIGN.md section 7: steady state)
                 recs = [rec(i) for i in range(R)]
             else:
-                recs = [rec(i) for i in range(R // 4)] + [rec(i, rng.below(3) if rng.chance(1, 2) else 0) for i in range(R - R // 4)]
+                recs = [rec(i) for i in range(R // 4)] + [rec(i, rng.below(3) if rng.chance(1, 2) else 0, late=True) for i in range(R - R // 4)]
             text = b''.join(recs)
+            if mode == 'next' and m > 0 and rng.chance(1, 4):
+                text = text[:-2] if text.endswith(b'\r\n') else text[:-1]        # no terminator after the last line
             one = len(rec(0))
             cap = rng.choice([max(3, one // 2), one + 1, one + 2, 2 * one + 3, 5 * one, 64, 256])
             if mode == 'next':
